@@ -119,6 +119,16 @@ def cBlockLines (showF : F → String) : List (Stmt F) → List String → Bool 
       cBlockLines showF ss (lines1 ++ cStmt showF s) false
 end
 
+/-- `ir_to_c_function_definition` -/
+def cFunc (showF : F → String) (f : Func F) : String :=
+  let params := ", ".intercalate (f.params.map fun p => typeToC p.2 (some p.1))
+  "\n".intercalate ([typeToC f.retTy none ++ " " ++ f.name ++ "(" ++ params ++ ") {"] ++
+    indentLines (cStmt showF f.body) ++ ["}"])
+
+/-- `ir_to_c` (whole module: what `generate_code(…, Language.c)` and the CLI print) -/
+def cModule (showF : F → String) (m : Module F) : String :=
+  "\n\n".intercalate (m.defs.map (cFunc showF))
+
 /-! ### hoisting certificate -/
 
 mutual
